@@ -534,13 +534,45 @@ def run_c15_ble(case, R):
     async def main(loop):
         w = BleWorld(loop, k=case.get("k", 0), att_payload=case.get("att", 155))
         w.acc.verify_reply_pieces = case["pieces"]
+        w.acc.empty_last_fragment = bool(case.get("empty_last"))
         w.acc.response_frag = case.get("rfrag", 512)          # size of the HAP-BLE PDU fragments the pairing TLV travels in, one layer below
+        env = case.get("envelope")
+        if env:
+            def envelope(stage, raw, env=env):
+                good = refhap.tlv_enc([(1, raw)])
+                if stage != env[1]:
+                    return good
+                if env[0] == "short":             # the Value item declares more bytes than follow
+                    return bytes([1, min(255, len(raw) + 1 + env[2] % 60)]) + raw
+                if env[0] == "dangling":          # a lone type byte behind a complete envelope
+                    return good + bytes([[1, 6, 9, 255][env[2] % 4]])
+                if env[0] == "split":             # the Value in two adjacent items, the first shorter than 255 bytes: a decoder joins equal-typed neighbours
+                    cut = 1 + env[2] % (len(raw) - 1)
+                    return bytes([1, cut]) + raw[:cut] + bytes([1, len(raw) - cut]) + raw[cut:]
+                if env[0] == "cut":               # the envelope itself cut short
+                    return good[:1 + env[2] % (len(good) - 1)]
+                raise AssertionError(env)
+            w.acc.envelope_fault = envelope
         try:
             p = w.pairing
+            if env and env[0] != "split":
+                # malformed envelope: the codec's own parse error (or another library error), never a result and never a foreign exception
+                R.cls("ble-envelope:" + env[0])
+                try:
+                    r = await p.get_characteristics([(1, 10)])
+                    if env[0] == "dangling" and r == {(1, 10): {"value": False}}:
+                        return            # a decoder may also stop at the complete envelope
+                    R.fail("C15.decode-short-value", f"BLE pair-verify {env[1]} reply with a {env[0]} envelope ({env[2]}) was accepted: {r!r:.100}")
+                except Exception as e:  # noqa: BLE001
+                    if not type(e).__module__.startswith("aiohomekit") or type(e).__module__.startswith("aiohomekit.tlv8"):
+                        R.fail("C15.decode-foreign-exception", f"BLE pair-verify {env[1]} reply with a {env[0]} envelope ({env[2]}): {type(e).__module__}.{type(e).__name__}: {e}",
+                               exc=type(e).__name__, shape="ble-envelope")
+                return
             try:
                 r = await p.get_characteristics([(1, 10)])
             except Exception as e:  # noqa: BLE001
-                R.fail("C15.ble-fragment-reassembly", f"pair-verify replies split into {case['pieces']}-byte FragmentData pieces (PDU fragments of {case.get('rfrag', 512)}): {type(e).__name__}: {e}", exc=type(e).__name__)
+                R.fail("C15.ble-fragment-reassembly", f"pair-verify replies split into {case['pieces']}-byte FragmentData pieces (PDU fragments of {case.get('rfrag', 512)}, "
+                                                      f"empty last fragment {bool(case.get('empty_last'))}, envelope {env}): {type(e).__name__}: {e}", exc=type(e).__name__)
                 return
             if r != {(1, 10): {"value": False}} or w.acc.sessions_established != 1 or w.acc.decrypt_errors:
                 R.fail("C15.ble-fragment-reassembly", f"pieces {case['pieces']}: result {r!r}, sessions {w.acc.sessions_established}")
@@ -559,6 +591,14 @@ def enum_c15_ble(tier):
         yield {"pieces": None, "att": 155, "rfrag": rfrag}
     for rfrag in (9, 20, 33, 50):
         yield {"pieces": 64, "att": 155, "rfrag": rfrag}
+    # every piece size, the reply ending with a zero-length FragmentLast
+    for n in range(3, 150):
+        yield {"pieces": n, "att": 155, "empty_last": True}
+    # the HAP-Param envelope around the pairing TLV: malformed (must be refused with the codec's own error) or split into two Value items (must be joined)
+    for stage in ("m2", "m4"):
+        for kind in ("short", "dangling", "split", "cut"):
+            for v in range(6):
+                yield {"pieces": None, "att": 155, "envelope": [kind, stage, v * 11]}
 
 
 C15_BLE_LAYERS = [Layer("ble-fragment-reassembly", run_c15_ble, enumerate=enum_c15_ble,
